@@ -143,7 +143,7 @@ def run(ctx):
             continue
         f = ctx.fn(PN % chain)
         if f:
-            rs = [e for _, e in ctx.ret_exprs(f)]
+            rs = ctx.ret_values(f)
             ctx.ob("C10.G.unknown-option-delegated", f.key, "all names", len(rs) == 1 and rs[0].startswith(ft + "(") and rs[0].endswith(", a2)"), "returns %s" % rs)
 
     # ------------------------------------------------------------ conflict matrix (field options)
@@ -253,7 +253,7 @@ def run(ctx):
     for m in ("parse_variant", "parse_field"):
         f = ctx.fn(O + "ParseData::" + m)
         if f:
-            rs = [e for _, e in ctx.ret_exprs(f)]
+            rs = ctx.ret_values(f)
             ok = len(rs) == 1 and rs[0].startswith("core::result::Result::Err{darling_core::error::Error::with_span(darling_core::error::Error::unsupported_format(")
             ctx.ob("C10.G.unrepresentable-body", f.key, "default %s rejects" % m, ok, "returns %s" % [r[:120] for r in rs])
     # FromMeta: multi-field tuple bodies must be rejected by validation (F2)
